@@ -95,7 +95,7 @@ class Tree:
         self.errors = []
 
     def prune(self, keep=3):
-        ds = [os.path.join(CACHE, d) for d in os.listdir(CACHE) if os.path.isdir(os.path.join(CACHE, d))]
+        ds = [os.path.join(CACHE, d) for d in os.listdir(CACHE) if os.path.isdir(os.path.join(CACHE, d)) and re.fullmatch(r'[0-9a-f]{16}', d)]
         ds.sort(key=lambda d: os.path.getmtime(d), reverse=True)
         for d in ds[keep:]:
             if d != self.dir:
